@@ -64,6 +64,35 @@ def run(ctx: core.Ctx):
             witness = witness or dict(kind="com_query", attrs=repr(attrs), sql=list(sql), got=repr(got))
     samples.append(dict(kind="com_query", attrs=repr(cases[3][0]), sql=list(cases[3][1]), model=repr(model[3])[:300]))
 
+    # ---- long attribute values / names: lengths on both sides of every length-prefix boundary (1, 3 and 9 byte prefixes).
+    # Too long for literals inside Coq; the oracle is the property itself (what was sent is what the parser returns), the
+    # prefix readers themselves are compared with Lib/Bytes.v below.
+    nbig = 0
+    for size in (251, 65535, 65536, 65537, 70000, 131071, 131072, 131073, 200001):
+        for where in ("value-last", "value-first", "name"):
+            big = bytes(97 + (i * 7 + size) % 23 for i in range(size))
+            small = pk.P(b"k", pk.T_VAR_STRING, False, b"v")
+            if where == "name":
+                attrs = [pk.P(big, pk.T_LONG, False, 5), small]
+            elif where == "value-last":
+                attrs = [small, pk.P(b"big", pk.T_VAR_STRING, False, big)]
+            else:
+                attrs = [pk.P(b"big", pk.T_VAR_STRING, False, big), small]
+            sql = b"SELECT 'tail'"
+            got = pk.impl_parse_com_query(pk.encode_com_query(attrs, sql), True)
+            nbig += 1
+            exp = sorted((bytes(a.name), a.canon(True)[1]) for a in attrs)
+            if not (got[0] == "Ok" and got[1][0] == sql and pk.same_pairs(sorted(got[1][1], key=lambda x: x[0]), exp)):
+                witness = witness or dict(kind="com_query-long", size=size, where=where, got=repr(got)[:300])
+            data = pk.encode_execute(True, 7, 8, [], attrs)
+            gote = pk.impl_execute(data, True, {7: ("SELECT 1", 0, None)})
+            if not (gote[0] == "Ok" and gote[1][0] == b"SELECT 1" and len(gote[1][1]) == 2):
+                witness = witness or dict(kind="execute-long", size=size, where=where, got=repr(gote)[:300])
+    ctx.evals += 2 * nbig
+    import types_corr
+    ntc, tbad, tkinds = types_corr.run(ctx, "c17t", 20 if ctx.quick else 400)
+    disagreements += tbad
+
     # ---- without the capability: every payload is SQL ----------------------------------------------------
     offs = [gen_sql(rng) for _ in range(N1 // 2)] + [bytes([b]) + b"rest" for b in range(0, 8)] + [b""]
     for d in offs:
@@ -156,10 +185,12 @@ def run(ctx: core.Ctx):
         rule="attribute lists of 0..17 entries (names incl. empty/duplicate/high bytes; ints of every width and signedness at their "
              "boundaries, strings incl. quotes/NUL/>250 bytes, floats, NULL) x SQL texts incl. ones starting 0x00-0x02, encoded by "
              "the client-side spec and parsed by the real parse_com_query / parse_com_stmt_execute vs the Coq model (latin1), with and "
-             "without the capability, 0..3 positional parameters; plus COM_QUERY through the wire with a recording session. "
+             "without the capability, 0..3 positional parameters; attribute values / names of 251 .. 200001 bytes around every "
+             "length-prefix boundary (implementation oracle); types.py fixed-width and length-encoded readers / writers against "
+             "Lib/Bytes.v; plus COM_QUERY through the wire with a recording session. "
              "distinct = distinct packets",
         samples=samples, distinct=len(distinct),
-        extra=dict(value_kinds=kinds, wire_queries=nw, disagreements=len(disagreements)),
+        extra=dict(value_kinds=kinds, wire_queries=nw, disagreements=len(disagreements), long_attribute_cases=nbig, reader_writer_cases=ntc, reader_writer_functions=tkinds),
         assumptions=["text is decoded with the client character set outside the model (latin1 = identity in the runs)",
                      "struct IEEE unpacking and repr(float) are CPython's"],
     )
